@@ -57,6 +57,7 @@ SIGS = {
     'load_manager': ['int'],
     'add_expr': ['spell'],
     'add_expr_text': ['text'],
+    'add_expr_lr': ['text'],
     'to_expr': ['int'],
     'to_nx': ['lint'],
     'to_dot': ['olint'],
@@ -159,7 +160,7 @@ ASIGS = {
     'ref': ['int'], 'negated': ['int'], 'len': ['int'], 'int': ['int'], 'drop': ['int'],
     'gc': [], 'reorder': ['odnn'], 'configure': ['obool'], 'set_last_len': ['oint'],
     'set_trig': ['oint'], 'copy': ['int', 'int'], 'shutdown': [],
-    'add_expr': ['spell'], 'add_expr_text': ['text'], 'to_expr': ['int'],
+    'add_expr': ['spell'], 'add_expr_text': ['text'], 'add_expr_lr': ['text'], 'to_expr': ['int'],
     'assert_consistent': [],
     'json_dump': ['hroots', 'lint'], 'json_load': ['dnn', 'roots', 'jnodes', 'bool'],
 }
